@@ -41,4 +41,31 @@ theorem class_member_bare_name_missing :
     let m : ModSummary := ⟨["C"], [("C", "Meth")], [], []⟩
     "Meth" ∉ safeSet m [] ∧ "C.Meth" ∈ safeSet m [] ∧ "Meth" ∉ memberGuarded (safeSet m []) "C" ["Meth"] := by decide
 
+/-- **members named `_`**: an attribute or method `_` of a top-level class is in the safe-mode set as `Class._`, and the
+`_` guard of `delete_pointless_statements` keeps its binding in that class body, whether or not the module reads `_` -/
+theorem safe_underscore_member_kept (m : ModSummary) (p : List String) (c : String) (r : Bool)
+    (h : (c, "_") ∈ m.classMethods ∨ (c, "_") ∈ m.classAssigns) : keepsUnderscore (safeSet m p) r (some c) = true := by
+  have hm : (c ++ "." ++ "_") ∈ safeSet m p := by
+    rcases h with h | h
+    · exact safeSet_method m p c "_" h
+    · exact safeSet_classAssign m p c "_" h
+  simp only [keepsUnderscore, Bool.or_eq_true, List.contains_iff_mem]
+  exact Or.inr hm
+
+/-- a top-level variable, function or class named `_` is kept in every body -/
+theorem safe_underscore_toplevel_kept (m : ModSummary) (p : List String) (r : Bool) (cls : Option String)
+    (h : "_" ∈ m.defs ∨ "_" ∈ m.assigns) : keepsUnderscore (safeSet m p) r cls = true := by
+  have hm : "_" ∈ safeSet m p := by
+    rcases h with h | h
+    · exact safeSet_defs m p "_" h
+    · exact safeSet_assigns m p "_" h
+  simp only [keepsUnderscore, Bool.or_eq_true, List.contains_iff_mem]
+  exact Or.inl (Or.inl hm)
+
+/-- what the guard was until 995e49d (it never asked for `Class._`: the same function with `cls = none`) loses the member
+`C._` of `class C: _ = 3` in a module that does not read `_`; the guard the code has now keeps it -/
+theorem underscore_member_needs_class_lookup :
+    let m : ModSummary := ⟨["C"], [], [], [("C", "_")]⟩
+    keepsUnderscore (safeSet m []) false none = false ∧ keepsUnderscore (safeSet m []) false (some "C") = true := by decide
+
 end C07
